@@ -55,6 +55,9 @@ OnEOF(s, e, i) ==
              s2 == RepIf(\E k \in DOMAIN s.groups : ~GroupOK(s.groups[k]), s1, V("parser-group-malformed", s0, [x |-> 0]))
              badp == {p \in DOMAIN s.units : PerPidGroups(s.groups, p) # s.units[p]}
          IN RepIf(badp # {}, s2, V("parser-not-handed-each-unit-once", s0, [pids |-> badp]))
+    [] e.run = "parserObsDs" ->       \* skip=false together with data of the parser's own: the default output (run base2) is unchanged
+         RepIf(Q(s.D, "parserObsDs") # Q(s.D, "base2"), s0, V("parser-data-with-skip-false-changes-output", s0,
+                  [nobs |-> Len(Q(s.D, "parserObsDs")), nbase |-> Len(Q(s.D, "base2"))]))
     [] e.run = "parserRep" ->
          RepIf(s.rep # [k \in 1..s.nrep |-> k - 1], s0, V("replacing-parser-output-not-delivered-exactly", s0, [n |-> s.nrep, got |-> Len(s.rep)]))
     [] OTHER -> s0
